@@ -18,11 +18,13 @@ DELAYS = {'~': 3, '&': 5, '|': 7, '^': 11, 'n': 13, 'w': 0, '+': 17, '-': 19, '*
 
 def custom_funcs(variant=0):
     if variant == 0:
-        return {op: (lambda d: (lambda width_or_mem: d))(d) for op, d in DELAYS.items()}
+        f0 = {op: (lambda d: (lambda width_or_mem: d))(d) for op, d in DELAYS.items()}
+        f0['m'] = lambda mem: 43 + mem.bitwidth
+        return f0
     # width-dependent integer delays; 'w' given a positive delay, 'c' treated as end of block
     f = {op: (lambda d: (lambda w: d + (w if isinstance(w, int) else 2)))(d)
          for op, d in DELAYS.items() if d >= 0}
-    f['m'] = lambda mem: 50
+    f['m'] = lambda mem: 50 + 3 * mem.bitwidth
     f['r'] = lambda w: -1
     f['@'] = lambda w: -5
     if variant == 2:
@@ -243,3 +245,22 @@ def reconverge(w=2):
     o1 <<= (s1[:w] & s2[:w]) | r
     o2 = pyrtl.Output(w, 'out2')
     o2 <<= m[a[0]]
+
+
+@__import__('fam.designs', fromlist=['design']).design
+def two_mems(aw=2):
+    """two memories with the same address width but different word widths (different read delays)"""
+    import pyrtl
+    a = pyrtl.Input(aw, 'in0')
+    b = pyrtl.Input(aw, 'in1')
+    m1 = pyrtl.MemBlock(bitwidth=2, addrwidth=aw, name='m1', asynchronous=True)
+    m2 = pyrtl.MemBlock(bitwidth=9, addrwidth=aw, name='m2', asynchronous=True)
+    r1 = pyrtl.RomBlock(bitwidth=5, addrwidth=aw, romdata=[1, 2, 3, 4][:2 ** aw], name='r1', asynchronous=True)
+    o1 = pyrtl.Output(2, 'out0')
+    o1 <<= m1[a]
+    o2 = pyrtl.Output(9, 'out1')
+    o2 <<= m2[b] + 1
+    o3 = pyrtl.Output(5, 'out2')
+    o3 <<= r1[a] ^ r1[b]
+    m1[b] <<= pyrtl.MemBlock.EnabledWrite(a, a[0])
+    m2[a] <<= pyrtl.MemBlock.EnabledWrite(pyrtl.concat(a, b, a, b, a[0])[:9], b[0])
